@@ -408,6 +408,13 @@ def r2_cst(a, tier):
             if not okd:
                 rep.fail(astc.methods['_define'].qualname, f'_define:{sorted(store)}', f'AST._define(["n","k"], ["l","m"]) on {store} gives {got}; required {want} '
                          f'(names that did not match are None / [], bound names keep their value)', astc.methods['_define'].loc)
+        # the form generated parsers use: a list name is also listed among the single names (NamedList is a Named)
+        got = _run_ast_define(ev, amethods, {}, ['n', 'l'], ['l'])
+        okd = got == {'n': None, 'l': []}
+        rep.add({'fn': 'AST._define', 'call': "_define(['n', 'l'], ['l'])", 'after': repr(got), 'ok': okd})
+        if not okd:
+            rep.fail(astc.methods['_define'].qualname, '_define:overlap', f"AST._define(['n','l'], ['l']) gives {got}; required {{'n': None, 'l': []}}: a name declared "
+                     f'as a list is a list also when it is listed among the single names (generated parsers declare it in both)', astc.methods['_define'].loc)
     # nameset/nameadd use the last node
     for m, target in (('nameset', '_set'), ('nameadd', '_setlist')):
         fn = st.methods.get(m)
